@@ -54,6 +54,41 @@ pub fn wl_c13(seed: u64, tier: &str) -> Vec<Vec<Value>> {
                 chunk(&mut sessions, &mut ops, 6);
             }
         }
+        // EVERY tag length 0..=255 and every message length 0..=260 (fixed small output): buffers sized
+        // for "typical" tags / messages, off-by-one at any internal boundary
+        {
+            let mut ops2 = vec![];
+            let step = if thorough { 1 } else { 1 };
+            for dl in (0..=255usize).step_by(step) {
+                ops2.push(json!({"op": if is_xmd {"xmd"} else {"xof"}, "x": x, "msg": bytes_to_j(&r.bytes(3)),
+                                 "dst": bytes_to_j(&r.bytes(dl)), "len": 32 + (dl % 2) * 16, "cls": "every-tag-length"}));
+                if ops2.len() >= 32 {
+                    sessions.push(std::mem::replace(&mut ops2, vec![]));
+                }
+            }
+            for ml in 0..=260usize {
+                ops2.push(json!({"op": if is_xmd {"xmd"} else {"xof"}, "x": x, "msg": bytes_to_j(&r.bytes(ml)),
+                                 "dst": bytes_to_j(&r.bytes(16)), "len": 32, "cls": "every-message-length"}));
+                if ops2.len() >= 32 {
+                    sessions.push(std::mem::replace(&mut ops2, vec![]));
+                }
+            }
+            sessions.push(ops2);
+        }
+        // messages longer than any length bound of the construction (only the OUTPUT length and the
+        // tag are bounded; the message is not)
+        {
+            let longs = [65535usize, 65536, 65537, 100_000, (1 << 17) + 1];
+            let k = x.len() + XS13.iter().position(|y| y == x).unwrap();
+            for (i, ml) in longs.iter().enumerate() {
+                if !thorough && i != k % longs.len() && i != (k + 2) % longs.len() {
+                    continue;
+                }
+                ops.push(json!({"op": if is_xmd {"xmd"} else {"xof"}, "x": x, "msg": bytes_to_j(&r.bytes(*ml)),
+                                "dst": bytes_to_j(&r.bytes(17)), "len": 48, "cls": "long-message"}));
+                chunk(&mut sessions, &mut ops, 2);
+            }
+        }
         // message and dst lengths across block boundaries
         for ml in msg_lens.iter() {
             for dl in dst_lens.iter() {
@@ -64,6 +99,23 @@ pub fn wl_c13(seed: u64, tier: &str) -> Vec<Vec<Value>> {
                 ops.push(json!({"op": if is_xmd {"xmd"} else {"xof"}, "x": x, "msg": bytes_to_j(&r.bytes(*ml)),
                                 "dst": bytes_to_j(&r.bytes(*dl)), "len": len, "cls": "msg-dst-lengths"}));
                 chunk(&mut sessions, &mut ops, 12);
+            }
+        }
+        // element counts whose byte length wraps around the machine word (XMD: must abort like any
+        // other request beyond 255 blocks)
+        if is_xmd {
+            for (f, l) in [("Fq", 64u64), ("Fr", 48), ("Fq2", 128)].iter() {
+                let wrap = (u64::MAX / l) + 1; // smallest count with count * L >= 2^64
+                let mut counts = vec![wrap, wrap + 1, wrap + 2, wrap.wrapping_mul(2).wrapping_add(1), u64::MAX, u64::MAX / 2 + 1,
+                                      (1u64 << 32) + 1];
+                if !thorough {
+                    counts.truncate(4);
+                }
+                for c in counts {
+                    ops.push(json!({"op": "h2f", "f": f, "x": x, "msg": bytes_to_j(&r.bytes(5)), "dst": bytes_to_j(&r.bytes(11)),
+                                    "countbig": nat(&vec![c]), "cls": "huge-count"}));
+                    chunk(&mut sessions, &mut ops, 10);
+                }
             }
         }
         // hash_to_field for every field and several counts
@@ -170,6 +222,37 @@ pub fn wl_c06(seed: u64, tier: &str) -> Vec<Vec<Value>> {
             }
         }
         sessions.push(ops);
+        // every tag length once, rotating through the suites and modes (G1: all; G2: every fourth)
+        {
+            let mut ops2 = vec![];
+            for dl in 0..=255usize {
+                for (k, x) in XS.iter().enumerate() {
+                    // G1: every suite at every length; G2 (quick): one suite per length, every other length
+                    if *g == "G2" && !thorough && (dl % 2 != 0 || k != (dl / 2) % XS.len()) {
+                        continue;
+                    }
+                    let mode = if (dl + k) % 3 == 0 { "ro" } else { "nu" };
+                    ops2.push(json!({"op": "h2c", "g": g, "x": x, "mode": mode, "msg": bytes_to_j(&r.bytes(4)),
+                                     "dst": bytes_to_j(&r.bytes(dl)), "cls": "every-tag-length"}));
+                    if ops2.len() >= (if *g == "G1" { 8 } else { 2 }) {
+                        sessions.push(std::mem::replace(&mut ops2, vec![]));
+                    }
+                }
+            }
+            sessions.push(ops2);
+        }
+        // long messages (beyond 2^16 bytes) through every suite
+        let longs = [65536usize, 100_000, 65535, (1 << 17) + 1];
+        for (k, x) in XS.iter().enumerate() {
+            for (i, ml) in longs.iter().enumerate() {
+                if !thorough && i != k % 2 {
+                    continue;
+                }
+                let mode = if (i + k) % 2 == 0 { "nu" } else { "ro" };
+                sessions.push(vec![json!({"op": "h2c", "g": g, "x": x, "mode": mode, "msg": bytes_to_j(&r.bytes(*ml)),
+                                          "dst": bytes_to_j(&r.bytes(20)), "cls": "long-message"})]);
+            }
+        }
         // the same (msg, dst) through every suite back to back (history independence)
         let msg = r.bytes(33);
         let dst = r.bytes(20);
@@ -265,7 +348,7 @@ fn rescale<G: Grp>(p: &G, lam: &G::Base) -> G {
 fn c16_group<G: Grp + OSSWUMap>(r: &mut Rng, thorough: bool, sessions: &mut Vec<Vec<Value>>)
 where
     G::Base: J,
-    G::Affine: CurveAffine<Projective = G>,
+    G::Affine: CurveAffine<Projective = G, Base = G::Base>,
 {
     let g = G::NAME;
     let per = if g == "G1" { 30 } else { 20 };
@@ -332,6 +415,11 @@ pub fn wl_c16(seed: u64, tier: &str) -> Vec<Vec<Value>> {
     sessions
 }
 
+fn fr_r() -> [u64; 4] {
+    let p = fr_info().p;
+    [p[0], p[1], p[2], p[3]]
+}
+
 fn c17_group<G: Grp>(r: &mut Rng, seed: u64, thorough: bool, sessions: &mut Vec<Vec<Value>>)
 where
     G: CurveProjective<Scalar = Fr>,
@@ -360,6 +448,22 @@ where
             let a = p.into_affine().into_projective();
             ops.push(json!({"op": "clearh", "g": g, "p": proj_to_j(&rescale(&a, &m1)), "cls": "Z=-1"}));
             ops.push(json!({"op": "clearh", "g": g, "p": proj_to_j(&a), "cls": "Z=1"}));
+        }
+        chunk(sessions, &mut ops, per);
+    }
+    // points without any component in the order-r subgroup ([r]Q for a curve point Q: order divides the
+    // cofactor, large in general), points of the form S + T with S in the subgroup, endomorphism images
+    for i in 0..(if thorough { 12 } else { 3 }) {
+        let q = full_order_point::<G>(r);
+        let t = q.mul(pairing::bls12_381::FrRepr(fr_r()));
+        ops.push(json!({"op": "clearh", "g": g, "p": proj_to_j(&t), "cls": "no-r-component"}));
+        let mut st = t;
+        st.add_assign(&G::random(&mut rng));
+        ops.push(json!({"op": "clearh", "g": g, "p": proj_to_j(&st), "cls": "subgroup-plus-cofactor-part"}));
+        if i == 0 {
+            ops.push(json!({"op": "clearh", "g": g, "p": proj_to_j(&t.into_affine().into_projective()), "cls": "no-r-component/Z=1"}));
+            let e = endo_img::<G>(&q, true);
+            ops.push(json!({"op": "clearh", "g": g, "p": proj_to_j(&e.into_projective()), "cls": "endo(full-order)"}));
         }
         chunk(sessions, &mut ops, per);
     }
